@@ -347,11 +347,6 @@ func (s *cmsShadow) fingerprint() string {
 	return sb.String()
 }
 
-func isOk(o Tok) bool { return o.Kind == 2 && len(o.L) == 2 && o.L[0].U() == 0 }
-func isErr(o Tok) bool {
-	return o.Kind == 2 && len(o.L) == 2 && o.L[0].U() == 1
-}
-func isPanic(o Tok) bool { return o.Kind == 2 && len(o.L) == 2 && o.L[0].U() == 2 }
 
 // monitorCMS checks C03 (bounds, exactness, empty) and C12 (merge = combined stream via the
 // shadow totals; mismatch => error and nothing changes) on the implementation's own outputs.
